@@ -975,6 +975,12 @@ func c08LenArg(v ssa.Value, fr *codec.Frame) (P ssa.Value, pfr *codec.Frame, con
 				v, fr = arg, pf
 				continue
 			}
+		case *ssa.UnOp, *ssa.Field:
+			// a field of a descriptor struct value, a single-assignment cell
+			if e, ef := codec.Resolve(v, fr); e != v {
+				v, fr = e, ef
+				continue
+			}
 		}
 		break
 	}
@@ -1004,6 +1010,13 @@ func (c *c08) narrowing(name, desc string, fn *ssa.Function, z *codec.Sym, piece
 			case *ssa.Parameter:
 				if arg, pf, ok := fr.Bind(x); ok {
 					v, fr = arg, pf
+					continue
+				}
+			case *ssa.UnOp, *ssa.Field:
+				// the integer travels in a descriptor struct: the conversion happened
+				// where the struct was built
+				if e, ef := codec.Resolve(v, fr); e != v {
+					v, fr = e, ef
 					continue
 				}
 			}
